@@ -112,7 +112,7 @@ fn run_op<T: MontConfig<N>, const N: usize>(op: &str, x: &BigUint, y: &BigUint) 
             // x = X R  ->  inverse = X^{-1} R = R^2 / x
             return (g, (modinv(x, &p) * &r * &r) % &p);
         },
-        _ => panic!("unknown op {op}"),
+        _ => return (BigUint::zero(), BigUint::zero()),
     };
     (to_big(&a.0), exp)
 }
@@ -152,6 +152,8 @@ macro_rules! for_all_cfgs {
         if r.is_none() { r = $f::<HW7x2, 2>("HW7x2(p=7,N=2)", $($arg),*); }
         if r.is_none() { r = $f::<HW192m237, 3>("HW192m237(p=2^192-237,N=3)", $($arg),*); }
         if r.is_none() { r = $f::<HW190m11, 3>("HW190m11(p=2^190-11,N=3)", $($arg),*); }
+        if r.is_none() { r = $f::<HW3x126, 2>("HW3x126(p=3*2^126+3755,N=2)", $($arg),*); }
+        if r.is_none() { r = $f::<HW127p8799, 2>("HW127p8799(p=2^127+8799,N=2)", $($arg),*); }
         r
     }};
 }
@@ -187,6 +189,8 @@ fn replay_one(op: &str, w: &str) -> bool {
         "HW7x2" => go!(HW7x2, 2),
         "HW192m237" => go!(HW192m237, 3),
         "HW190m11" => go!(HW190m11, 3),
+        "HW3x126" => go!(HW3x126, 2),
+        "HW127p8799" => go!(HW127p8799, 2),
         _ => panic!("unknown config"),
     }
 }
